@@ -12,7 +12,10 @@
 (*   Stutter  == traj = RefTraj(kind, step)   the trajectory observed under *)
 (*               any interleaving of SaveLoad actions is the trajectory of  *)
 (*               the checkpoint-free run                                    *)
-(*   SaveLoad(fmt) == UNCHANGED <<step, traj>>                              *)
+(*   SaveLoad(fmt, medium) == UNCHANGED <<step, traj>>                      *)
+(*   SaveLoadOk == ok      every save/load returns Ok, whatever the medium, *)
+(*               the size of the object and what the path held before       *)
+(*   MediumIndependent     what is loaded does not depend on the medium     *)
 (* `traj` is the sequence of per-step digests of what a step makes          *)
 (* observable (state structs, histories, step counters; for a static type   *)
 (* the result of using it). Deliberately NOT "the object is unchanged":     *)
@@ -35,10 +38,27 @@
 (*   "drift"     every round trip perturbs a number (a parser that does not *)
 (*               round-trip): also breaks Idempotent                        *)
 (*                                                                          *)
-(* TLC enumerates every schedule over {Step, SaveLoad(yaml|json|bin)} up to *)
-(* DepthOf(kind) for every object kind — every step index is a checkpoint   *)
-(* position — checks Stutter on all of them and (MCCheckpoint) emits each   *)
-(* complete schedule as a replayable case for the real objects.             *)
+(*   "keep_tail" to_file opens the target without truncating: a shorter     *)
+(*               document written over a longer one keeps the old tail      *)
+(*   "size_cap"  the binary reader refuses documents longer than Cap        *)
+(*                                                                          *)
+(* A SaveLoad has a MEDIUM (the public entry points a user saves through):  *)
+(*   "mem"    string / bytes in memory  (to_str / from_str, to_bincode ..)  *)
+(*   "reader" bytes in memory read back through from_reader                 *)
+(*   "file"   to_file / from_file at a fresh path                           *)
+(*   "alias"  the other advertised spellings of the format name (yml, YAML, *)
+(*            .json, BIN ...) as file extension or format string            *)
+(*   "over"   to_file / from_file at a path that ALREADY holds a document:  *)
+(*            the checkpoint a previous, longer run left there (disk[fmt])  *)
+(* and the object a SIZE CLASS: "small" starts fresh, "large" has BigPre    *)
+(* steps (a long history) behind it when the schedule starts; the length of *)
+(* a document grows with the history (DocLen).                              *)
+(*                                                                          *)
+(* TLC enumerates every schedule over {Step, SaveLoad(fmt, medium)} up to   *)
+(* DepthOf(kind) for every object kind and size class — every step index is *)
+(* a checkpoint position — checks Stutter / SaveLoadOk / MediumIndependent  *)
+(* on all of them and (MCCheckpoint) emits each complete schedule as a      *)
+(* replayable case for the real objects.                                    *)
 (***************************************************************************)
 EXTENDS Integers, Sequences, FiniteSets, TLC
 
@@ -46,18 +66,28 @@ CONSTANTS DeepKinds,      \* kinds explored to Depth (simulation objects)
           ShallowKinds,   \* kinds explored to ShallowDepth
           StaticKinds,    \* subset of the kinds whose Step is a *use* (object not advanced)
           Depth, ShallowDepth,
-          Variant         \* "faithful" | "skip_acc" | "drop_i" | "drop_hist" | "drift"
+          Media,          \* media enumerated by this config (subset of AllMedia)
+          Sizes,          \* size classes enumerated by this config (subset of AllSizes)
+          BigSaves,       \* most SaveLoads in a schedule of a "large" object (they are expensive to replay)
+          Variant         \* "faithful" | "skip_acc" | "drop_i" | "drop_hist" | "drift" | "keep_tail" | "size_cap"
 
 Formats == {"yaml", "json", "bin"}
+AllMedia == {"mem", "reader", "file", "alias", "over"}
+AllSizes == {"small", "large"}
+BigPre == 5                                   \* steps behind a "large" object when the schedule starts
+Cap == 4                                      \* fault model size_cap: longest document the capped reader takes
 Kinds == DeepKinds \cup ShallowKinds
 DepthOf(k) == IF k \in DeepKinds THEN Depth ELSE ShallowDepth
 
 VARIABLES kind,   \* object kind of this behaviour
+          size,   \* size class of this behaviour
           step,   \* number of Steps taken
           traj,   \* observable trajectory: digest after every Step
           obj,    \* the live object (Level B)
-          hist    \* the schedule so far: "step" | format names
-vars == <<kind, step, traj, obj, hist>>
+          disk,   \* per format: the document at the re-used checkpoint path [len, junk = bytes of an older document behind it]
+          ok,     \* the last SaveLoad returned Ok
+          hist    \* the schedule so far: <<"step", "-">> | <<format, medium>>
+vars == <<kind, size, step, traj, obj, disk, ok, hist>>
 
 ----------------------------------------------------------------------------
 (* the abstract object *)
@@ -79,38 +109,68 @@ Reload(o) ==
     [] Variant = "drift"     -> [o EXCEPT !.cache = NoCache, !.acc = @ + 1]
     [] OTHER -> o
 
-(* the checkpoint-free run *)
+(* the checkpoint-free run; a "large" object has BigPre steps behind it (a static one is simply a big document) *)
+Pre(sz) == IF sz = "large" THEN BigPre ELSE 0
 RECURSIVE RefObj(_, _)
 RefObj(k, n) == IF n = 0 \/ k \in StaticKinds THEN Fresh ELSE Advance(RefObj(k, n - 1))
-RefTraj(k, n) == [j \in 1..n |-> Dig(RefObj(k, j))]
+RefTraj(k, sz, n) == [j \in 1..n |-> Dig(RefObj(k, Pre(sz) + j))]
+
+(* documents and the two ways to the storage *)
+DocLen(k, sz, o) == 1 + o.hlen + (IF k \in StaticKinds THEN Pre(sz) ELSE 0)
+Doc(n) == [len |-> n, junk |-> 0]
+Max(a, b) == IF a > b THEN a ELSE b
+(* to_file onto a path that holds `old` *)
+Write(old, n) == IF Variant = "keep_tail" THEN [len |-> n, junk |-> Max(0, old.len + old.junk - n)] ELSE Doc(n)
+(* the text parsers refuse anything behind the document; the binary decoder stops at its end *)
+Readable(fmt, med, c) == /\ (fmt = "bin" \/ c.junk = 0)
+                         /\ ~(Variant = "size_cap" /\ fmt = "bin" /\ med # "mem" /\ c.len > Cap)
+(* one save + load of o: what lands in storage, whether the load returns Ok, the object to continue with *)
+Loaded(k, sz, o, fmt, med, dsk) ==
+  LET c == IF med = "over" THEN Write(dsk[fmt], DocLen(k, sz, o)) ELSE Doc(DocLen(k, sz, o))
+      good == Readable(fmt, med, c)
+  IN [ok |-> good, obj |-> IF good THEN Reload(o) ELSE o, disk |-> IF med = "over" THEN [dsk EXCEPT ![fmt] = c] ELSE dsk]
+(* the re-used path holds the checkpoint written at the end of an earlier run of the same case *)
+Prefill(k, sz) == Doc(DocLen(k, sz, RefObj(k, Pre(sz) + DepthOf(k))))
+NSaves(h) == Cardinality({j \in 1..Len(h) : h[j][1] \in Formats})
 
 ----------------------------------------------------------------------------
-Init == /\ kind \in Kinds
-        /\ step = 0 /\ traj = <<>> /\ obj = Fresh /\ hist = <<>>
+Init == /\ kind \in Kinds /\ size \in Sizes
+        /\ step = 0 /\ traj = <<>> /\ obj = RefObj(kind, Pre(size)) /\ hist = <<>>
+        /\ disk = [f \in Formats |-> Prefill(kind, size)] /\ ok = TRUE
 
 Step == /\ Len(hist) < DepthOf(kind)
         /\ obj' = IF kind \in StaticKinds THEN obj ELSE Advance(obj)
         /\ step' = step + 1
         /\ traj' = Append(traj, Dig(obj'))
-        /\ hist' = Append(hist, "step")
-        /\ UNCHANGED kind
+        /\ hist' = Append(hist, <<"step", "-">>)
+        /\ UNCHANGED <<kind, size, disk, ok>>
 
-SaveLoad(fmt) == /\ Len(hist) < DepthOf(kind)
-                 /\ obj' = Reload(obj)
-                 /\ hist' = Append(hist, fmt)
-                 /\ UNCHANGED <<kind, step, traj>>       \* the refinement statement
+SaveLoad(fmt, med) ==
+  /\ Len(hist) < DepthOf(kind)
+  /\ size = "large" => NSaves(hist) < BigSaves
+  /\ LET r == Loaded(kind, size, obj, fmt, med, disk)
+     IN obj' = r.obj /\ ok' = r.ok /\ disk' = r.disk
+  /\ hist' = Append(hist, <<fmt, med>>)
+  /\ UNCHANGED <<kind, size, step, traj>>       \* the refinement statement
 
-Next == Step \/ \E fmt \in Formats : SaveLoad(fmt)
+Next == Step \/ \E fmt \in Formats, med \in Media : SaveLoad(fmt, med)
 Spec == Init /\ [][Next]_vars
 
 ----------------------------------------------------------------------------
 (* Level A *)
-Stutter == traj = RefTraj(kind, step)
+Stutter == traj = RefTraj(kind, size, step)
+(* every save/load returns Ok: whatever the medium, the size of the object, and whatever the path held before *)
+SaveLoadOk == ok
+(* what is loaded does not depend on the medium the document travelled through *)
+MediumIndependent == \A fmt \in Formats, med \in AllMedia :
+                       LET a == Loaded(kind, size, obj, fmt, med, disk)
+                           b == Loaded(kind, size, obj, fmt, "mem", disk)
+                       IN a.ok = b.ok /\ a.obj = b.obj
 (* a second round trip changes nothing more than the first *)
 Idempotent == Reload(Reload(obj)) = Reload(obj)
 (* SaveLoad is a stuttering step of <<step, traj>>, as an action property *)
-StutterStep == [][hist' # hist /\ hist'[Len(hist')] \in Formats => UNCHANGED <<step, traj>>]_vars
+StutterStep == [][hist' # hist /\ hist'[Len(hist')][1] \in Formats => UNCHANGED <<step, traj>>]_vars
 
-TypeOK == /\ kind \in Kinds /\ step \in 0..Depth /\ Len(traj) = step
-          /\ Len(hist) <= DepthOf(kind)
+TypeOK == /\ kind \in Kinds /\ size \in AllSizes /\ step \in 0..Depth /\ Len(traj) = step
+          /\ Len(hist) <= DepthOf(kind) /\ Media \subseteq AllMedia /\ Sizes \subseteq AllSizes
 =============================================================================
